@@ -135,7 +135,8 @@ def to_coq_op(op):
 
 def coq_obs(st):
     rl = lambda l: coq_list(["(mkRule %s %s %s %s)" % (coq_str(x["name"]), coq_z(x["sal"]), coq_str(x["desc"]), coq_z(x["body"])) for x in l])
-    idx = coq_list(["(%s, %s)" % (coq_str(k), coq_nat(v)) for k, v in sorted(st["index"].items())])
+    # positions are naturals in the model: a NEGATIVE observed index (never a position) is written as len+1 (never a position either)
+    idx = coq_list(["(%s, %s)" % (coq_str(k), coq_nat(v if v >= 0 else len(st["sorted"]) + 1)) for k, v in sorted(st["index"].items())])
     return "mkObs %s %s %s %s %s %s" % (coq_bool(st["err"]), rl(st["sorted"]), rl(st["ents"]),
                                         coq_list([coq_str(k) for k in st["keys"]]), idx,
                                         coq_list([coq_bool(b) for b in st["exist"]]))
